@@ -61,7 +61,9 @@ func defaultConfig() *Config {
 	return c
 }
 
-func (c *Config) harnessDir() string { return filepath.Join(c.Verif, "harness", "h_"+strings.ToLower(c.Prop)) }
+func (c *Config) harnessDir() string {
+	return filepath.Join(c.Verif, "harness", "h_"+strings.ToLower(c.Prop))
+}
 func (c *Config) harnessPkg() string { return elys + "/zzvrf/h_" + strings.ToLower(c.Prop) }
 
 // overlay maps virtual files under <repo>/zzvrf to the real files under /verif.
@@ -131,27 +133,28 @@ func (c *Config) overlayFiles() (map[string]string, error) {
 }
 
 type harnessDecl struct {
-	Name       string
-	Mode       string
-	Tier       string
-	Summaries  map[string]string
-	Covers     []string
-	AllowAbort []string
-	AssertMs   int
-	ExactMs    int
-	BranchMs   int
-	FullFeasMs int
-	Unwind     int
-	MaxSteps   int64
-	MaxPaths   int
-	Witnesses  int
+	Name         string
+	Mode         string
+	Tier         string
+	Summaries    map[string]string
+	Covers       []string
+	AllowAbort   []string
+	AssertMs     int
+	ExactMs      int
+	BranchMs     int
+	FullFeasMs   int
+	Unwind       int
+	MaxSteps     int64
+	MaxPaths     int
+	Witnesses    int
 	witnessesSet bool
-	OptSummary map[string]bool
-	RerunReal  map[string]bool
-	Product    bool
-	Doc        string
-	Bounds     []string
-	Assumes    []string
+	OptSummary   map[string]bool
+	RerunReal    map[string]bool
+	Product      bool
+	AssertPrefix string
+	Doc          string
+	Bounds       []string
+	Assumes      []string
 }
 
 func parseDirectives(fd *ast.FuncDecl) *harnessDecl {
@@ -213,6 +216,9 @@ func parseDirectives(fd *ast.FuncDecl) *harnessDecl {
 			h.witnessesSet = true
 		case "product":
 			h.Product = true
+		case "assert-prefix":
+			// a scenario of another property's package re-run here: only the assertions labelled with this prefix are evaluated
+			h.AssertPrefix = rest
 		case "bound":
 			h.Bounds = append(h.Bounds, rest)
 		case "assume":
@@ -329,6 +335,8 @@ func (c *Config) makeSpecs(l *loaded, findings map[string]bool) ([]*symx.Harness
 		}
 		if c.Prop == "C15" || c.Prop == "C19" {
 			s.AssertPrefix = c.Prop
+		} else if d.AssertPrefix != "" {
+			s.AssertPrefix = d.AssertPrefix
 		}
 		if c.Prop == "C19" {
 			s.CheckGlobals = elys + "/x/"
@@ -409,6 +417,11 @@ func functionExists(prog *ssa.Program, name string) bool {
 		for f := range ssautil.AllFunctions(prog) {
 			fnIndex[f.String()] = true
 		}
+	}
+	if strings.Contains(name, "[") {
+		// a method of an instantiated generic type: go/ssa creates the instance on demand, so it is not in the
+		// inventory; the summary is matched by name when (and if) the instance is called
+		return true
 	}
 	return fnIndex[name]
 }
@@ -1236,7 +1249,6 @@ func runReplay(c *Config, file string) int {
 	return 0
 }
 
-
 func listFuncs(c *Config, pat string) int {
 	l, err := load(c)
 	if err != nil {
@@ -1255,7 +1267,6 @@ func listFuncs(c *Config, pat string) int {
 	}
 	return 0
 }
-
 
 // ndSource is a source of replica divergence found in the SSA of the Elys packages.
 type ndSource struct {
@@ -1512,7 +1523,6 @@ func listSources(c *Config) int {
 	}
 	return 0
 }
-
 
 // runSelftest: differential conformance of the sdkmath model. The harness
 // h_selftest.H_MathConformance is executed concretely inside the interpreter and
